@@ -1,7 +1,7 @@
 import JominiModel.Model.BinDe
 import JominiModel.Spec.BinDoc
-import JominiModel.Proofs.BinDe
 import JominiModel.Proofs.BinDeSeq
+import JominiModel.Proofs.BinDe
 /-
 C04 — binary deserialization agrees across tape, on-demand and streaming paths.
 Helper lemmas: Proofs/BinDe.lean (dispatch), Proofs/BinDeSeq.lean (sequential readers).
@@ -15,16 +15,17 @@ floats through the flavor, strings through the encoding, token ids through the r
 configured fallback (`valLeaf` = `leafPrim` then what the type accepts).  The sequential paths
 leave the rest of the input untouched. -/
 theorem C04_token_dispatch (c : Cfg) (f : Nat) (ty : Ty) (h : LeafTy ty) (l : BLeaf)
+    (hl : plainTok l.tok = true)   -- the leaf is not the reserved lexeme 0x0243 (the rgb marker is no token id)
     (rest : List Tok) (tape : List TTok) (idx : Nat) (ht : tape[idx]? = some l.ttok) :
     deTok .ondemand c (f + 1) ty l.tok rest = (valLeaf c ty l).map (fun v => (v, rest)) ∧
     deTok .stream c (f + 1) ty l.tok rest = (valLeaf c ty l).map (fun v => (v, rest)) ∧
     tVal c tape (f + 1) ty idx = valLeaf c ty l ∧
     valNode c (.leaf l) ty = valLeaf c ty l :=
-  ⟨seq_leaf .ondemand c f ty h l rest, seq_leaf .stream c f ty h l rest, tape_leaf c tape f ty h l idx ht,
+  ⟨seq_leaf .ondemand c f ty h l rest hl, seq_leaf .stream c f ty h l rest hl, tape_leaf c tape f ty h l idx ht,
    spec_leaf c ty h l⟩
 
-example : LeafTy .f64 ∧ ([TTok.token 8192, TTok.f32 [220, 5, 0, 0]] : List TTok)[1]? = some (BLeaf.f32 [220, 5, 0, 0]).ttok := by
-  simp [LeafTy, BLeaf.ttok]
+example : LeafTy .f64 ∧ plainTok (BLeaf.f32 [220, 5, 0, 0]).tok = true ∧ ([TTok.token 8192, TTok.f32 [220, 5, 0, 0]] : List TTok)[1]? = some (BLeaf.f32 [220, 5, 0, 0]).ttok := by
+  simp [LeafTy, BLeaf.ttok, BLeaf.tok, plainTok]
 
 /-- rgb as its components: a sequence request on an rgb value is `ColorSequence` on all three paths
 and in the reference — the streaming reader hands over the parsed block, the on-demand path reads
